@@ -245,7 +245,7 @@ pub fn run(ctx: &Ctx) -> i32 {
     let rec = new_rec(ctx, "C12");
     {
         let mut r = rec.borrow_mut();
-        r.rule = "case = (reference encoding of a generated value / envelope, optionally with one fault: truncation, bit flip outside length fields, type byte; delivery schedule: whole, one byte at a time, single split point, or a script of chunk sizes with Pending injections; trailing sentinel bytes); oracle: async Ok(v) iff in-memory Ok(v) with equal values, async Err whenever in-memory Err, bytes taken from the stream = bytes the in-memory decoder consumed; short messages (<= 64 bytes) additionally get every split point exhaustively; non-trivial = schedule has >= 2 chunks or a Pending; plus nesting chains of depth 1..=91 through struct / list / map-value / set hops skipped in memory and asynchronously (same answer, same bytes taken)".into();
+        r.rule = "case = (reference encoding of a generated value / envelope, optionally with one fault: truncation, bit flip outside length fields, type byte; delivery schedule: whole, one byte at a time, single split point, or a script of chunk sizes with Pending injections; trailing sentinel bytes); oracle: async Ok(v) iff in-memory Ok(v) with equal values, async Err whenever in-memory Err, bytes taken from the stream = bytes the in-memory decoder consumed; short messages (<= 64 bytes) additionally get every split point exhaustively; payloads of 65535..200001 bytes as value, field and list element under four schedules; non-trivial = schedule has >= 2 chunks or a Pending; plus nesting chains of depth 1..=91 through struct / list / map-value / set hops skipped in memory and asynchronously (same answer, same bytes taken)".into();
         r.assumptions = vec![
             "the scripted reader wakes itself on Pending; the executor re-polls immediately".into(),
             "inputs on which the in-memory decoder panics or that enlarge a length field are excluded and counted (C09 decides them)".into(),
@@ -340,6 +340,36 @@ pub fn run(ctx: &Ctx) -> i32 {
             report(ctx, &rec, "async-split", &Case { base: FaultCase { src: Src::Valid { item, fault: Fault::None } }, sched: Sched::ByteWise, sentinel: 3 }, &f);
         }
     }
+    // payloads around and beyond 64 KiB (where a reader that grows its buffer starts to grow it),
+    // as a bare value, as a field followed by a sibling and as a list element followed by another,
+    // delivered whole (everything behind the payload has already arrived), in two halves and in
+    // small chunks with and without stalls
+    if rec.borrow().violations.is_empty() {
+        let mut reported = std::collections::BTreeSet::new();
+        for len in [65535usize, 65536, 65537, 70000, 131072, 131073, 200001] {
+            let pay = |seed: usize| TVal::Binary((0..len).map(|i| b'a' + ((i * 7 + seed) % 26) as u8).collect());
+            let items = [
+                Item::Val(pay(1)),
+                Item::Val(TVal::Struct(vec![(1, pay(2)), (2, TVal::I32(7)), (3, TVal::Binary(b"tail".to_vec()))])),
+                Item::Val(TVal::List(vcore::tval::TT::Binary, vec![pay(3), TVal::Binary(b"next".to_vec())])),
+            ];
+            for item in items {
+                for sched in [Sched::Whole, Sched::Split(32768), Sched::Script(vec![(255, false)]), Sched::Script(vec![(200, true), (255, false), (1, false)])] {
+                    let c = Case { base: FaultCase { src: Src::Valid { item: item.clone(), fault: Fault::None } }, sched, sentinel: 9 };
+                    {
+                        let mut rr = rec.borrow_mut();
+                        rr.case(fp(&("large", len, &c.sched, matches!(item, Item::Val(TVal::Binary(_))))), true, || json!(format!("payload of {} bytes, {:?}", len, c.sched)));
+                        rr.class("payload > 64 KiB");
+                    }
+                    if let Err(f) = as_presult(&c) {
+                        if reported.insert(f.key.clone()) && !ctx.findings.is_open("C12", &f.key) {
+                            report(ctx, &rec, "async", &c, &f);
+                        }
+                    }
+                }
+            }
+        }
+    }
     // nesting chains of depth 1..=90 through struct / list / map-value / set hops: the
     // asynchronous skipper refuses exactly where the in-memory skipper refuses
     {
@@ -362,7 +392,7 @@ pub fn run(ctx: &Ctx) -> i32 {
     }
     let _ = TVal::Bool(true);
     if rec.borrow().violations.is_empty() {
-        if let Some(c) = require_classes(&rec, &["schedule: one byte at a time", "schedule: single split", "schedule: script", "Pending injected", "valid input", "truncated input", "bit-flipped input", "envelope", "exhaustive split point"]) {
+        if let Some(c) = require_classes(&rec, &["schedule: one byte at a time", "schedule: single split", "schedule: script", "Pending injected", "valid input", "truncated input", "bit-flipped input", "envelope", "exhaustive split point", "payload > 64 KiB"]) {
             rec.borrow().finish(&ctx.findings);
             return c;
         }
